@@ -52,7 +52,7 @@ def build_lib(features=()):
         shutil.rmtree(tgt, ignore_errors=True)
     # keep only a few libs
     libs = sorted([d for d in os.listdir(facts.CACHE) if d.startswith("lib-")], key=lambda d: os.path.getmtime(os.path.join(facts.CACHE, d)))
-    for d in libs[:-40]:
+    for d in libs[:-15]:
         shutil.rmtree(os.path.join(facts.CACHE, d), ignore_errors=True)
     return rlib, os.path.join(out, "deps")
 
